@@ -63,6 +63,13 @@ impl OverflowTable {
             clk += 1;
         }
 
+        // the rows above were recorded under "negative" clock values, which a historical look-up
+        // by clock cycle never finds: record the initial state under clock 0 as well, so that the
+        // state reconstructed for the cycles before the first overflow event contains them
+        if enable_trace && !init_values.is_empty() {
+            overflow_table.save_current_state(0);
+        }
+
         overflow_table
     }
 
